@@ -409,7 +409,7 @@ impl<'a> ReplyData<'a> {
                 Ok( #sylvia ::cw_std::SubMsg {
                     reply_on: #reply_on ,
                     id: #reply_id ,
-                    msg: self.into(),
+                    msg: Into::into(self),
                     payload,
                     gas_limit: None,
                 })
